@@ -10,6 +10,7 @@ from __future__ import annotations
 import contextlib
 import copy
 import math
+import os
 from typing import Any, Dict, List, Optional
 
 import numpy as np
@@ -79,6 +80,11 @@ def generate(seed: int, tier: str) -> Dict[str, Any]:
         # the T1/T2 fan-out is the same retrieval contract: shards, per-shard hits, merged and rescored
         raw["perf"] = dict(raw.get("perf") or {}, enabled=True)
         raw["perf"]["parallel"] = {"enabled": True, "t1": r.chance(0.5), "t2": True, "agents": False, "max_workers": r.choice([2, 3, 4])}
+    reader = r.chance(0.15)
+    if reader:
+        # retrieval served by the embedding-store reader (shards on disk next to the index): the same contract applies
+        raw["perf"] = dict(raw.get("perf") or {}, enabled=True)
+        raw["perf"].setdefault("t2", {})["reader"] = {"partitions": {"enabled": True, "layout": "none", "path": "./t2store"}}
     agents = sorted(world["agents"])
     ro = rng.stream("ops")
     texts = [E.gen_text(ro) for _ in range(r.randint(1, 2))]
@@ -141,6 +147,14 @@ def execute(p: Dict[str, Any]) -> Dict[str, Any]:
         with E.EngineEnv(root, clock) as ee, (ParallelSeams(Rng(int(E.jdigest(p)[:8], 16)).stream("sched")) if par else contextlib.nullcontext()):
             if par:
                 stats["parallel_runs"] = 1
+            if ((((p["cfg"].get("perf") or {}).get("t2") or {}).get("reader") or {}).get("partitions") or {}).get("enabled"):
+                from clematis.engine.util.embed_store import write_shard
+                eps0 = [e for e in (p["world"].get("episodes") or []) if E.episode_vec(e.get("vec", "text"), e.get("text", "")) is not None]
+                if eps0:
+                    write_shard(os.path.join(root, "t2store"), [e["id"] for e in eps0],
+                                np.stack([np.asarray(E.episode_vec(e.get("vec", "text"), e.get("text", "")), dtype=np.float32) for e in eps0]),
+                                dtype="fp32", precompute_norms=True)
+                    stats["reader_runs"] = 1
             run = E.EngineRun(p["world"], p["cfg"], ee)
             real_t2 = core.t2_semantic
             real_q = t2core._apply_quality
@@ -200,6 +214,11 @@ def execute(p: Dict[str, Any]) -> Dict[str, Any]:
                         if abs(c - float(x.score)) > 1e-5:
                             bad("score-not-cosine", "hit %s score %.6f, cosine %.6f; %s" % (x.id, float(x.score), c, ctxs))
                     tiers = list(cfg_t2.get("tiers", ["exact_semantic", "cluster_semantic", "archive"]))
+                    if list((res.metrics or {}).get("tier_sequence") or []) == ["embed_store"]:
+                        # served by the embedding-store reader: it declares its own tier; the exact / cluster tier rules are
+                        # rules of those tiers and are not judged here (scope, threshold, k and ranking are)
+                        tiers = ["embed_store"]
+                        stats["reader_served_calls"] = stats.get("reader_served_calls", 0) + 1
                     if "archive" not in tiers and "cluster_semantic" not in tiers and "exact_semantic" in tiers:
                         days = int(cfg_t2.get("exact_recent_days", 30))
                         if days > 0:
